@@ -200,7 +200,7 @@ pub fn c03(ctx: &mut Ctx) {
             let pi = [pen[0] as I, pen[1] as I, pen[2] as I, pen[3] as I, pen[4] as I];
             match out {
                 OfOut::Ok(lens) => {
-                    ctx.case(Op { req, real: format!("ok:{};shape=1;minimal=1;costeq=1", crate::proto::enc_nats(&lens)) }, desc.clone());
+                    ctx.case(Op { req, real: format!("ok:{};shape=1;minimal=1;costeq=1;smawk=1", crate::proto::enc_nats(&lens)) }, desc.clone());
                     let c = arrangement_cost(&fi, &li, pi, &lens);
                     let m = min_cost(&fi, &li, pi);
                     if frs.len() <= 11 {
@@ -552,11 +552,11 @@ pub fn c04(ctx: &mut Ctx) {
                         ctx.count("overflow_error_on_non_usize_input");
                         ctx.oracle_ok();
                     }
-                    ctx.case(Op { req: format!("{}|shapeonly", req), real: "overflow".into() }, dd);
+                    ctx.case(Op { req: format!("{}|shapeonly", req), real: "overflow;smawk=1".into() }, dd);
                 }
                 OfOut::Ok(lens) => {
                     ctx.oracle_ok();
-                    ctx.case(Op { req: format!("{}|shapeonly", req), real: format!("ok:{}", crate::proto::enc_nats(&lens)) }, dd);
+                    ctx.case(Op { req: format!("{}|shapeonly", req), real: format!("ok:{};smawk=1", crate::proto::enc_nats(&lens)) }, dd);
                 }
             }
         }
